@@ -284,12 +284,31 @@ class Doc:
                 return c
             if kids:
                 recipes += [('detached-' + how, (lambda how=how: detached(how))) for how in ('remove', 'replace', 'dotnone')]
+
+                # trees whose check setting changed while they were built (reachable through the API like any other)
+                def unchecked_then_checked():
+                    e = cls(value, xsd_check=False, **kwargs) if value != '' else cls(xsd_check=False, **kwargs)
+                    for k in kids:
+                        e.add_child(F.mk(k))
+                    e.xsd_check = True
+                    return e
+
+                def check_off_for_one_child():
+                    e = with_kids(cls(value, **kwargs) if value != '' else cls(**kwargs))
+                    e.xsd_check = False
+                    e.add_child(F.mk(kids[-1]))
+                    e.xsd_check = True
+                    return e
+                recipes += [('toggled:unchecked-then-checked', unchecked_then_checked), ('toggled:check-off-for-one-child', check_off_for_one_child)]
         for chk in (True, False):
             for desc, build in recipes:
                 def b():
                     e = build()
-                    e.xsd_check = chk
+                    if not desc.startswith('toggled:'):
+                        e.xsd_check = chk
                     return e
+                if desc.startswith('toggled:') and not chk:
+                    continue
                 r0, e = call(b)
                 if not r0['ok']:
                     continue
